@@ -39,6 +39,9 @@ def check_case(case, fenced=True):
     except exceptions.ODataException as e:
         return ("refused:" + type(e).__name__, "%r -> %s: %s" % (text, type(e).__name__, e))
     except Exception as e:
+        if lib.engine_limit(e):
+            case["_stats"] = {"decided": 0, "undecided": 0, "engine_limit": 1}
+            return None
         return ("foreign:" + _bucket(e), "%r -> %s: %s" % (text, type(e).__name__, str(e)[:300]))
     # the documented three-step style: parse, optionally modify the tree, visitor, annotate, filter
     try:
@@ -54,6 +57,9 @@ def check_case(case, fenced=True):
             qs2 = qs2.annotate(**v.queryset_annotations)
         ids2 = list(qs2.filter(q).values_list("id", flat=True))
     except Exception as e:
+        if lib.engine_limit(e):
+            case["_stats"] = {"decided": 0, "undecided": 0, "engine_limit": 1}
+            return None
         return ("visitor-style:" + ("refused:" + type(e).__name__ if isinstance(e, exceptions.ODataException) else "foreign:" + _bucket(e)),
                 "%r accepted by the shorthand but the visitor used directly -> %s: %s" % (text, type(e).__name__, str(e)[:300]))
     if sorted(ids2) != sorted(ids):
@@ -121,6 +127,7 @@ def run_task(task, seed, acc):
         acc.cls("rows_undecided", stats.get("undecided", 0))
         acc.cls("rows_selected", stats.get("selected", 0))
         acc.cls("rows_excluded_by_known_finding", stats.get("excluded_by_known_finding", 0))
+        acc.cls("filters_beyond_an_engine_limit", stats.get("engine_limit", 0))
         for c in c01.classes_of(t, case["rows"]):
             acc.cls(c)
         if r:
